@@ -226,6 +226,10 @@ class Inliner:
                     rec(st.body, st)
                 elif isinstance(st, FUNC):
                     out.append((cls, st))
+                    # functions defined inside (decorator wrappers, callbacks): their statements are rewritten like any other
+                    for n_ in ast.walk(st):
+                        if isinstance(n_, FUNC) and n_ is not st:
+                            out.append((cls, n_))
         rec(tree.body, None)
         return out
 
@@ -792,13 +796,103 @@ class Inliner:
         self._count(hnode)
         return [ast.fix_missing_locations(x) for x in out] or [ast.Pass()]
 
+    def _expand_lock_class(self, st, call: ast.Call, cand) -> Optional[list[ast.stmt]]:
+        """`async with C(a) as v: BODY` where the NEW class C wraps one lock:
+              __init__:   self._f = <name / attribute chain over the parameters>  (only such stores)
+              __aenter__: await self._lock.acquire() ; [return <chain over self fields>]
+              __aexit__:  self._lock.release()
+        is `async with <lock>: v = <the returned chain, read after the lock was obtained>; BODY` -- asyncio.Lock's own __aenter__ / __aexit__
+        are exactly acquire / release.  A value read in __init__ stays a value read BEFORE the wait (it is bound in front of the statement)."""
+        rel_, c_ = cand
+        if not isinstance(st, ast.AsyncWith) or c_.bases:
+            return None
+        meths = {m.name: m for m in c_.body if isinstance(m, FUNC)}
+        if set(meths) != {'__init__', '__aenter__', '__aexit__'} or any(f'{rel_}:{c_.name}.{m}' in self.known for m in meths):
+            return None
+
+        def stmts(m):
+            return [s_ for s_ in m.body if not (isinstance(s_, ast.Expr) and isinstance(s_.value, ast.Constant))]
+        init, enter, exit_ = meths['__init__'], meths['__aenter__'], meths['__aexit__']
+        params = [a.arg for a in init.args.args][1:]
+        if call.keywords or len(call.args) != len(params) or not all(_simple(a) for a in call.args) or init.args.vararg or init.args.kwarg:
+            return None
+        argmap = dict(zip(params, call.args))
+        fields: dict[str, ast.AST] = {}
+        pre: list[ast.stmt] = []
+        k = next(_counter)
+        for s_ in stmts(init):
+            t_ = s_.targets[0] if isinstance(s_, ast.Assign) and len(s_.targets) == 1 else s_.target if isinstance(s_, ast.AnnAssign) else None
+            if not (isinstance(t_, ast.Attribute) and isinstance(t_.value, ast.Name) and t_.value.id == 'self' and s_.value is not None and _simple(s_.value)
+                    and not isinstance(s_.value, ast.Constant)):
+                return None
+            v_ = _Subst(dict(argmap), {}).visit(copy.deepcopy(s_.value))
+            if isinstance(s_.value, ast.Name):
+                fields[t_.attr] = v_                       # the parameter itself
+            else:
+                # an attribute chain read in __init__: evaluated when the manager is created, i.e. before the wait
+                tmp = f'{t_.attr.lstrip("_")}__inl{k}'
+                pre.append(ast.copy_location(ast.Assign([ast.Name(tmp, ast.Store())], v_, lineno=st.lineno), st))
+                fields[t_.attr] = ast.Name(tmp, ast.Load())
+        eb = stmts(enter)
+        if not eb or not (isinstance(eb[0], ast.Expr) and isinstance(eb[0].value, ast.Await) and isinstance(eb[0].value.value, ast.Call) and
+                          isinstance(eb[0].value.value.func, ast.Attribute) and eb[0].value.value.func.attr == 'acquire' and not eb[0].value.value.args):
+            return None
+        lock_attr = ast.unparse(eb[0].value.value.func.value)
+        ret = None
+        if len(eb) == 2 and isinstance(eb[1], ast.Return):
+            ret = eb[1].value
+        elif len(eb) != 1:
+            return None
+        xb = stmts(exit_)
+        if not (len(xb) == 1 and isinstance(xb[0], ast.Expr) and isinstance(xb[0].value, ast.Call) and ast.unparse(xb[0].value) == f'{lock_attr}.release()'):
+            return None
+
+        class R(ast.NodeTransformer):
+            def __init__(self):
+                self.bad = False
+
+            def visit_Attribute(self, n):
+                if isinstance(n.value, ast.Name) and n.value.id == 'self':
+                    if n.attr in fields and isinstance(n.ctx, ast.Load):
+                        return copy.deepcopy(fields[n.attr])
+                    self.bad = True
+                return self.generic_visit(n)
+        r = R()
+        # the lock: the object that `self._lock` named when the manager was created IS the lock of the transfer (a lock attribute is not
+        # rebound while someone waits for it), so the statement names it by its chain; every other chain keeps its pre-wait binding
+        lf = lock_attr.split('.', 1)[1] if lock_attr.startswith('self.') else None
+        if lf in fields and isinstance(fields[lf], ast.Name) and fields[lf].id.endswith(f'__inl{k}'):
+            tmp_name = fields[lf].id
+            for p_ in list(pre):
+                if p_.targets[0].id == tmp_name:
+                    fields[lf] = p_.value
+                    pre.remove(p_)
+        lock_expr = r.visit(ast.parse(lock_attr, mode='eval').body)
+        body = list(st.body)
+        var = st.items[0].optional_vars
+        if var is not None:
+            if ret is None or not isinstance(var, ast.Name):
+                return None
+            body = [ast.copy_location(ast.Assign([ast.Name(var.id, ast.Store())], r.visit(copy.deepcopy(ret)), lineno=st.lineno), st)] + body
+        if r.bad:
+            return None
+        # the lock chain itself was read in __init__ too: the SAME lock object either way (the attribute is not rebound while waiting)
+        out = ast.AsyncWith([ast.withitem(lock_expr, None)], body)
+        self.inlined[c_.name] = self.inlined.get(c_.name, 0) + 1
+        return [ast.fix_missing_locations(x) for x in pre + [ast.copy_location(out, st)]]
+
     def _expand_with_class(self, st, call: ast.Call, fn) -> Optional[list[ast.stmt]]:
         """`[async] with C(a..): BODY` where C is a NEW class whose __init__ only stores its parameters, whose __[a]enter__ does nothing
         but return, and whose __[a]exit__ is `if exc_type is not None: STMTS` (falling off the end: the exception is not swallowed):
               try: BODY  except BaseException: STMTS[self._x := a]; raise
         or, when __[a]exit__ does not look at the exception at all:   try: BODY finally: STMTS."""
         cands = [(rel_, c_) for rel_, t_ in self.trees.items() for c_ in t_.body if isinstance(c_, ast.ClassDef) and c_.name == call.func.id]
-        if len(cands) != 1 or st.items[0].optional_vars is not None:
+        if len(cands) != 1:
+            return None
+        locked = self._expand_lock_class(st, call, cands[0])
+        if locked is not None:
+            return locked
+        if st.items[0].optional_vars is not None:
             return None
         rel_, c_ = cands[0]
         is_async = isinstance(st, ast.AsyncWith)
